@@ -86,8 +86,9 @@ struct VerifConnection {
 
 /// See the module comment.
 pub struct VerifProtocol {
-    inner: RequestResponseProtocol,
-    _manager: TransportManager,
+    inner: Option<RequestResponseProtocol>,
+    _manager: Option<TransportManager>,
+    local_peer: PeerId,
     tx: Sender<InnerTransportEvent>,
     connections: HashMap<PeerId, VerifConnection>,
     permits: HashMap<usize, Permit>,
@@ -104,6 +105,20 @@ impl VerifProtocol {
         max_inbound: Option<usize>,
         dialable: &[PeerId],
     ) -> (Self, RequestResponseHandle) {
+        Self::new_full(max_size, timeout, max_inbound, dialable, &[], None)
+    }
+
+    /// Like [`Self::new`], with fallback protocol names and, optionally, the capacities of the
+    /// event channel (protocol -> user) and of the command channel (user -> protocol), which
+    /// `ConfigBuilder` fixes at `DEFAULT_CHANNEL_SIZE`.
+    pub fn new_full(
+        max_size: usize,
+        timeout: Option<Duration>,
+        max_inbound: Option<usize>,
+        dialable: &[PeerId],
+        fallback_names: &[&'static str],
+        channels: Option<(usize, usize)>,
+    ) -> (Self, RequestResponseHandle) {
         let manager = TransportManagerBuilder::new().build();
         let mut handle = manager.transport_manager_handle();
         handle.register_transport(SupportedTransport::Tcp);
@@ -116,29 +131,46 @@ impl VerifProtocol {
         }
 
         let protocol = ProtocolName::from("/verif/req/1");
+        let fallback_names: Vec<ProtocolName> =
+            fallback_names.iter().map(|name| ProtocolName::from(*name)).collect();
+        let local_peer = manager.verif_local_peer_id();
         let (service, tx) = TransportService::new(
-            PeerId::random(),
+            local_peer,
             protocol.clone(),
-            Vec::new(),
+            fallback_names.clone(),
             Arc::new(Default::default()),
             handle,
             Duration::from_secs(1_000_000_000),
             SubstreamKeepAlive::Yes,
         );
-        let mut builder = ConfigBuilder::new(protocol.clone()).with_max_size(max_size);
+        let mut builder = ConfigBuilder::new(protocol.clone())
+            .with_max_size(max_size)
+            .with_fallback_names(fallback_names);
         if let Some(timeout) = timeout {
             builder = builder.with_timeout(timeout);
         }
         if let Some(max) = max_inbound {
             builder = builder.with_max_concurrent_inbound_requests(max);
         }
-        let (config, rr_handle) = builder.build();
+        let (mut config, mut rr_handle) = builder.build();
+        if let Some((event_capacity, command_capacity)) = channels {
+            let (event_tx, event_rx) = channel(event_capacity.max(1));
+            let (command_tx, command_rx) = channel(command_capacity.max(1));
+            config.event_tx = event_tx;
+            config.command_rx = command_rx;
+            rr_handle = RequestResponseHandle::new(
+                event_rx,
+                command_tx,
+                Arc::clone(&config.next_request_id),
+            );
+        }
         let codec = config.codec;
 
         (
             Self {
-                inner: RequestResponseProtocol::new(service, config),
-                _manager: manager,
+                inner: Some(RequestResponseProtocol::new(service, config)),
+                _manager: Some(manager),
+                local_peer,
                 tx,
                 connections: HashMap::new(),
                 permits: HashMap::new(),
@@ -148,6 +180,24 @@ impl VerifProtocol {
             },
             rr_handle,
         )
+    }
+
+    /// The local peer id (dialing it fails with `TriedToDialSelf`).
+    pub fn local_peer(&self) -> PeerId {
+        self.local_peer
+    }
+
+    /// Drop the transport manager: every later `dial()` fails with `TaskClosed`.
+    pub fn drop_manager(&mut self) {
+        self._manager = None;
+    }
+
+    /// Hand out the REAL event loop, `RequestResponseProtocol::run`, as a future to be polled by
+    /// the harness. Afterwards `step` and `dump` are unavailable; the scripted transport side
+    /// (`inject_*`, `take_open_requests`, `break_connection`) keeps working.
+    pub fn take_run(&mut self) -> BoxFuture<'static, ()> {
+        let protocol = self.inner.take().expect("protocol not taken yet");
+        Box::pin(protocol.run())
     }
 
     /// Report a new connection to `peer` (the harness keeps the connection's command channel).
@@ -261,6 +311,18 @@ impl VerifProtocol {
         outbound: Option<usize>,
         io: Box<dyn VerifIo>,
     ) -> bool {
+        self.inject_substream_opened_with_fallback(peer, outbound, io, None)
+    }
+
+    /// Like [`Self::inject_substream_opened`]; `fallback` is the fallback protocol name the
+    /// substream was negotiated with, if any.
+    pub fn inject_substream_opened_with_fallback(
+        &mut self,
+        peer: PeerId,
+        outbound: Option<usize>,
+        io: Box<dyn VerifIo>,
+        fallback: Option<&'static str>,
+    ) -> bool {
         let Some(connection) = self.connections.get(&peer) else {
             return false;
         };
@@ -276,7 +338,7 @@ impl VerifProtocol {
             .try_send(InnerTransportEvent::SubstreamOpened {
                 peer,
                 protocol: self.protocol.clone(),
-                fallback: None,
+                fallback: fallback.map(ProtocolName::from),
                 direction,
                 connection_id: connection.id,
                 substream: Substream::verif_new(
@@ -312,7 +374,7 @@ impl VerifProtocol {
     /// One iteration of the event loop of [`RequestResponseProtocol::run`], with the same arms in
     /// the same (biased) order, plus a last arm that returns when nothing is ready.
     pub async fn step(&mut self) -> VerifStep {
-        let this = &mut self.inner;
+        let this = self.inner.as_mut().expect("protocol was handed out by take_run");
         tokio::select! {
             biased;
 
@@ -357,7 +419,7 @@ impl VerifProtocol {
 
     /// Sorted copy of the bookkeeping.
     pub fn dump(&self) -> VerifDump {
-        let this = &self.inner;
+        let this = self.inner.as_ref().expect("protocol was handed out by take_run");
         let key = |peer: &PeerId| peer.to_bytes();
         let mut peers: Vec<_> = this
             .peers
